@@ -1870,7 +1870,7 @@ pub fn client_fragmented_reply_with_timers() -> Value {
 		let mut tried = 0;
 		for gap_ms in [30u64, 120, 260] {
 			tried += 1;
-			let ping = PingConfig::new().ping_interval(std::time::Duration::from_millis(50)).inactive_limit(std::time::Duration::from_secs(5));
+			let ping = PingConfig::new().ping_interval(std::time::Duration::from_secs(10)).inactive_limit(std::time::Duration::from_millis(60)).max_failures(10_000);
 			let (c, mut from_client, to_client) = mock::fragment_client(ClientBuilder::default().enable_ws_ping(ping).request_timeout(std::time::Duration::from_secs(3)));
 			let c = std::sync::Arc::new(c);
 			let (c1, c2) = (c.clone(), c.clone());
@@ -1895,10 +1895,10 @@ pub fn client_fragmented_reply_with_timers() -> Value {
 			let r2 = tokio::time::timeout(std::time::Duration::from_secs(4), f2).await.ok().and_then(|x| x.ok());
 			if r1 != Some(Ok("answer-1".to_string())) || r2 != Some(Ok("answer-2".to_string())) {
 				return json!({"probe":"client_fragmented_reply_with_timers","disagrees":true,
-					"input": format!("2 concurrent calls, ping interval 50 ms; the first answer arrives in two fragments {gap_ms} ms apart (the transport's receive() future holds the first fragment), then the second answer"),
+					"input": format!("2 concurrent calls, inactivity tick every 60 ms; the first answer arrives in two fragments {gap_ms} ms apart (the transport's receive() future holds the first fragment), then the second answer"),
 					"observed": format!("call 1 -> {:?}, call 2 -> {:?}", r1, r2), "expected":"call 1 -> answer-1, call 2 -> answer-2"});
 			}
 		}
-		json!({"probe":"client_fragmented_reply_with_timers","disagrees":false,"histories_tried":tried,"bound":"3 fragment gaps (30, 120, 260 ms) against a 50 ms ping interval"})
+		json!({"probe":"client_fragmented_reply_with_timers","disagrees":false,"histories_tried":tried,"bound":"3 fragment gaps (30, 120, 260 ms) against a 60 ms inactivity tick"})
 	})
 }
